@@ -1,0 +1,56 @@
+//go:build verif
+
+// Contracts for package app, governance part (C14 internal transactions; C06 session discipline around them).
+// Comment-only file, read by /verif/govc.
+
+package app
+
+// ---------------------------------------------------------------- BeginBlock: queueing
+// gItxWf: the separate internal-transaction State is well formed and its ChainState may be committed (precondition of
+// storage.(*ChainState).Commit, reached through State.Commit) except for the int64 bound on the version, stated separately
+//@ ghost func gItxWf(ts *transactions.TransactionStore) bool = ts != nil && wfState(ts.State) && ts.State.cs.Delivered != nil && ts.State.cs.ChainStateRotation.recent >= 0 && ts.State.cs.ChainStateRotation.every >= 0 && ts.State.cs.ChainStateRotation.cycles >= 0 && ts.State.cs.Version == ivVersion(ts.State.cs.Delivered) && ts.State.cs.Version >= 0 && ts.State.cs.ChainStateRotation.cycles * ts.State.cs.ChainStateRotation.every <= 9223372036854775807
+//@ ghost func gQueuedExp(ps *governance.ProposalStore, id string, height int) bool = propHas(ps, ps.prefixActive, id) && propRec(ps, ps.prefixActive, id).Status == stVoting() && propRec(ps, ps.prefixActive, id).VotingDeadline < height
+//@ ghost func gQueuedFinP(ps *governance.ProposalStore, id string) bool = propHas(ps, ps.prefixPassed, id) && propRec(ps, ps.prefixPassed, id).Status == stCompleted() && propRec(ps, ps.prefixPassed, id).Outcome == ocCompletedYes()
+//@ ghost func gQueuedFinF(ps *governance.ProposalStore, id string) bool = propHas(ps, ps.prefixFailed, id) && propRec(ps, ps.prefixFailed, id).Status == stCompleted() && propRec(ps, ps.prefixFailed, id).Outcome == ocCompletedNo()
+
+// A proposal id is newly queued for expiry only if its ACTIVE record is in Voting status with VotingDeadline < height,
+// and newly queued for finalisation only if its PASSED record is Completed/CompletedYes or its FAILED record is
+// Completed/CompletedNo. (The version bound in the precondition only serves the int64 overflow precondition of
+// ChainState.Commit: one commit per queued transaction.)
+//@ func AddInternalTX
+//@   requires proposalMasterStore != nil && wfPS(proposalMasterStore.Proposal) && gItxWf(transaction) && logger != nil
+//@   requires itCount(proposalMasterStore.Proposal)[str(proposalMasterStore.Proposal.prefixActive)] >= 0 && itCount(proposalMasterStore.Proposal)[str(proposalMasterStore.Proposal.prefixPassed)] >= 0 && itCount(proposalMasterStore.Proposal)[str(proposalMasterStore.Proposal.prefixFailed)] >= 0 && transaction.State.cs.Version + itCount(proposalMasterStore.Proposal)[str(proposalMasterStore.Proposal.prefixActive)] + itCount(proposalMasterStore.Proposal)[str(proposalMasterStore.Proposal.prefixPassed)] + itCount(proposalMasterStore.Proposal)[str(proposalMasterStore.Proposal.prefixFailed)] < 9223372036854775807
+//@   ensures forall id string :: qExp(transaction)[id] && !old(qExp(transaction))[id] ==> gQueuedExp(proposalMasterStore.Proposal, id, height)   // C14.expire-queued-after-deadline
+//@   ensures forall id string :: qFin(transaction)[id] && !old(qFin(transaction))[id] ==> gQueuedFinP(proposalMasterStore.Proposal, id) || gQueuedFinF(proposalMasterStore.Proposal, id)   // C14.finalize-queued-completed
+//@   invariant iter1: gItxWf(transaction) && transaction.State.cs.Version <= old(transaction.State.cs.Version) + $n
+//@   invariant iter1: proposalMasterStore.Proposal.prefix == proposalMasterStore.Proposal.prefixActive && qFin(transaction) == old(qFin(transaction))
+//@   invariant iter1: forall id string :: qExp(transaction)[id] && !old(qExp(transaction))[id] ==> gQueuedExp(proposalMasterStore.Proposal, id, height)
+//@   invariant iter2: gItxWf(transaction) && transaction.State.cs.Version <= old(transaction.State.cs.Version) + old(itCount(proposalMasterStore.Proposal))[str(proposalMasterStore.Proposal.prefixActive)] + $n
+//@   invariant iter2: proposalMasterStore.Proposal.prefix == proposalMasterStore.Proposal.prefixPassed
+//@   invariant iter2: forall id string :: qExp(transaction)[id] && !old(qExp(transaction))[id] ==> gQueuedExp(proposalMasterStore.Proposal, id, height)
+//@   invariant iter2: forall id string :: qFin(transaction)[id] && !old(qFin(transaction))[id] ==> gQueuedFinP(proposalMasterStore.Proposal, id)
+//@   invariant iter3: gItxWf(transaction) && transaction.State.cs.Version <= old(transaction.State.cs.Version) + old(itCount(proposalMasterStore.Proposal))[str(proposalMasterStore.Proposal.prefixActive)] + old(itCount(proposalMasterStore.Proposal))[str(proposalMasterStore.Proposal.prefixPassed)] + $n
+//@   invariant iter3: proposalMasterStore.Proposal.prefix == proposalMasterStore.Proposal.prefixFailed
+//@   invariant iter3: forall id string :: qExp(transaction)[id] && !old(qExp(transaction))[id] ==> gQueuedExp(proposalMasterStore.Proposal, id, height)
+//@   invariant iter3: forall id string :: qFin(transaction)[id] && !old(qFin(transaction))[id] ==> gQueuedFinP(proposalMasterStore.Proposal, id) || gQueuedFinF(proposalMasterStore.Proposal, id)
+
+// ---------------------------------------------------------------- EndBlock: executing the queued internal transactions
+// gItxOK: the separate internal-transaction State is well formed and its ChainState may be committed (precondition of
+// storage.(*ChainState).Commit, which State.Commit at the end of both runners reaches)
+//@ ghost func gItxOK(ts *transactions.TransactionStore) bool = gItxWf(ts) && ts.State.cs.Version < 9223372036854775807
+
+// Session discipline (C06) around each queued transaction: BeginTxSession before the handler (the handler's and
+// CommitTxSession's `sessOpen` preconditions are proved at their call sites), CommitTxSession after a successful handler,
+// DiscardTxSession after a failed one and after a failed Unmarshal (the latter since the fix that added the discard
+// before that `continue`; before it C06.session-closed failed: the session stayed open).
+//@ func ExpireProposals
+//@   requires ctx != nil && header != nil && logger != nil && ctx.deliver != nil && wfState(ctx.deliver) && !sessOpen(ctx.deliver) && ctx.actionRouter != nil && gItxOK(ctx.transaction) && ctx.transaction.State != ctx.deliver
+//@   invariant loop1: wfState(ctx.deliver) && ctx.deliver == old(ctx.deliver) && ctx.transaction == old(ctx.transaction) && ctx.actionRouter != nil && gItxOK(ctx.transaction) && ctx.transaction.State != ctx.deliver && !sessOpen(ctx.deliver)   // C06.session
+//@   ensures !sessOpen(ctx.deliver)                                                                                                    // C06.session-closed
+//@   ensures wfState(ctx.deliver)                                                                                                      // C06.session
+
+//@ func FinalizeProposals
+//@   requires ctx != nil && header != nil && logger != nil && ctx.deliver != nil && wfState(ctx.deliver) && !sessOpen(ctx.deliver) && ctx.actionRouter != nil && gItxOK(ctx.transaction) && ctx.transaction.State != ctx.deliver
+//@   invariant loop1: wfState(ctx.deliver) && ctx.deliver == old(ctx.deliver) && ctx.transaction == old(ctx.transaction) && ctx.actionRouter != nil && gItxOK(ctx.transaction) && ctx.transaction.State != ctx.deliver && !sessOpen(ctx.deliver)   // C06.session
+//@   ensures !sessOpen(ctx.deliver)                                                                                                    // C06.session-closed
+//@   ensures wfState(ctx.deliver)                                                                                                      // C06.session
